@@ -188,12 +188,14 @@ def analyse(log_path, case, native=False):
             p = line.split()
             if len(p) < 4:
                 continue
-            fib, func, kind = int(p[1]), p[2], p[3]
+            tid, fib, func, kind = int(p[0]), int(p[1]), p[2], p[3]
             if kind != "note":
                 if len(p) > 4 and GUARD.match(p[4]) and func in IO_FUNCS:
                     oob.append("%s %s %s by fiber %d" % (func, kind, p[4], fib))
                 if func == "fiber_wait_for_event" and fib in cur:
                     cur[fib]["waited"] = True
+                if func == "should_block" and kind == "ld" and fib in cur and len(p) > 5:
+                    cur[fib]["lastload"] = int(p[5])
                 continue
             a = p[4:]
             if not a:
@@ -215,13 +217,15 @@ def analyse(log_path, case, native=False):
             elif a[0] == "epctl":
                 if func == "fiber_wait_for_event" and fib in cur:
                     cur[fib]["waited"] = True
+                    cur[fib]["ctl"] = int(a[4])
             elif a[0] == "call":
                 fd = int(a[2])
                 if a[1] == "close":
                     close_seq[fd] = ln      # fiber_fd_closed wakes the waiters BEFORE the real close
                     closing[fd] = ln
                 cur[fib] = {"name": a[1], "fd": fd, "n": int(a[3]), "dw": a[4] == "1", "line": ln,
-                            "nb": mode_nb.get(fd, False), "waited": False, "sys": [], "op": curop.get(fib)}
+                            "nb": mode_nb.get(fd, False), "waited": False, "sys": [], "op": curop.get(fib),
+                            "tids": {tid}, "lastload": None, "ctl": None}
             elif a[0] == "sys":
                 name = a[1]
                 if name in ("socketpair", "pipe"):
@@ -246,6 +250,7 @@ def analyse(log_path, case, native=False):
                 c = cur.get(fib)
                 if c is not None and (name == c["name"] or (name in ("fcntl", "ioctl") and c["name"].startswith(name))):
                     c["sys"].append((r, e))
+                    c["tids"].add(tid)
                 if name in WRITES and r > 0 and fd in peer:
                     inq[peer[fd]] = inq.get(peer[fd], 0) + r
                 if name in READS and r > 0 and fd in inq:
@@ -302,9 +307,16 @@ def analyse(log_path, case, native=False):
                     if c["waited"] and nonblocking and (stable_mode or c["dw"]):
                         fails.append("oracle nonblocking-blocked parked in fiber_wait_for_event: %s%s" % (
                             where, " MSG_DONTWAIT" if c["dw"] else ""))
+                    migrated = len(c["tids"]) > 1
                     if r == -1 and e == EAGAIN and not nonblocking and stable_mode:
-                        if closed_during:
+                        if closed_during and (not c["waited"] or c["lastload"] == 0):
+                            # the call ENTERED while another kernel thread was inside close(): it saw
+                            # EAGAIN from the kernel and then flags already cleared
+                            fails.append("oracle close-race (closed-eagain) returned -1/EAGAIN, the descriptor was being closed on another kernel thread: " + where)
+                        elif closed_during:
                             fails.append("oracle closed-eagain returned -1/EAGAIN after the descriptor was closed: " + where)
+                        elif migrated:
+                            fails.append("oracle errno-migration (blocking-eagain) returned -1/EAGAIN in blocking mode after resuming on another kernel thread (kernel threads %s): %s" % (sorted(c["tids"]), where))
                         else:
                             fails.append("oracle blocking-eagain returned -1/EAGAIN in blocking mode: " + where)
                     # transparency: value = last underlying call's; earlier ones failed with EAGAIN
@@ -317,7 +329,11 @@ def analyse(log_path, case, native=False):
                                     r, e, s[-1][0], s[-1][1], where))
                             for (r0, e0) in s[:-1]:
                                 if not (r0 == -1 and e0 == EAGAIN):
-                                    fails.append("oracle not-transparent an earlier underlying call returned (%d,%d) and was discarded: %s" % (r0, e0, where))
+                                    if migrated:
+                                        fails.append("oracle errno-migration (not-transparent) an underlying call returned (%d,%d) after the fiber resumed on another kernel thread and was discarded (kernel threads %s): %s" % (r0, e0, sorted(c["tids"]), where))
+                                    else:
+                                        fails.append("oracle not-transparent an earlier underlying call returned (%d,%d) and was discarded: %s" % (r0, e0, where))
+                                    break
                         if name in XFER and r == 0 and c["n"] > 0 and name in WRITES:
                             fails.append("oracle not-transparent empty write: " + where)
             elif a[0] == "SEGV":
@@ -357,8 +373,13 @@ def analyse(log_path, case, native=False):
             else:
                 ready = fd in closed or (c["name"] in READS and (inq.get(fd, 0) > 0 or peer.get(fd) in closed or
                                                                  peer.get(fd) in wr_shut))
-                if ready and spinning:
+                discarded = [x for x in c["sys"][:-1] if not (x[0] == -1 and x[1] == EAGAIN)]
+                if discarded and len(c["tids"]) > 1:
+                    why.append("oracle errno-migration (not-transparent) underlying results %s discarded, the call never returns (kernel threads %s): %s" % (discarded[:3], sorted(c["tids"]), where))
+                elif ready and spinning:
                     why.append("oracle poll-starved descriptor ready but no kernel thread ever polls (fibers %s only yield): %s" % (spinning, where))
+                elif ready and (fd in closed or fd in closing) and c["ctl"] == 0:
+                    why.append("oracle close-race (lost-wakeup) registered with epoll between fiber_fd_closed and the real close on another kernel thread, never resumed: " + where)
                 elif ready:
                     why.append("oracle lost-wakeup descriptor ready/closed, waiter never resumed: " + where)
         if why:
@@ -372,6 +393,16 @@ def analyse(log_path, case, native=False):
     elif status != "OK" and not fails:
         fails.append("status " + status)
     return fails, got, ops_of, status
+
+
+CANDIDATE_KNOWN = ("oracle errno-migration", "oracle zerolen-blocked", "oracle fcntl-mode", "oracle getfl-nonblock",
+                   "oracle poll-starved", "oracle close-race")
+
+
+def order(fails):
+    """classes that have a known-finding entry go last, so that an anchored pattern can never
+    hide a different failure of the same run"""
+    return [x for x in fails if not x.startswith(CANDIDATE_KNOWN)] + [x for x in fails if x.startswith(CANDIDATE_KNOWN)]
 
 
 def post_io(log_path, case):
@@ -402,6 +433,7 @@ def post_io(log_path, case):
                     fails.append("oracle ref-differs op %s of fiber %d: fibers %s, plain blocking calls %s" % (
                         op, key[0], gs, rs))
                     break
+    fails = order(fails)
     return "; ".join(fails[:4]) if fails else None
 
 
@@ -632,6 +664,10 @@ def gen_io(rng, tier):
             setup, script, cmp_ = gen_dyn(rng)
         k = 1 if kind == "spin" else rng.choice([1, 1, 2, 2, 3])
         env = sched_env(rng, budget=600000 if kind != "streambig" else 1500000)
+        while env["VR_SCHED"] == "pct":
+            # strict priorities starve: a poller that keeps receiving EPOLLHUP for a descriptor
+            # whose stale interest it re-arms never lets a lower-priority thread run
+            env = sched_env(rng, budget=env["VR_BUDGET"])
         env["VR_HANG"] = 3000
         env["VR_AUTOTICK"] = 0
         env["VR_MAXEV"] = 1 << 21
@@ -651,14 +687,15 @@ def gen_asan(rng, tier):
                     "cx%s_9" % b]
     for s in singles:
         cases.append({"args": ["f", 1, "S0", s], "env": {"ASAN_OPTIONS": "detect_leaks=0:abort_on_error=0"},
-                      "kind": "badfd", "timeout": 60})
+                      "kind": "badfd", "timeout": 10})
     for _ in range(n_cases(tier, 20, 200)):
         _, script, _ = gen_badfd(rng)
+        script = max(script.split("|"), key=lambda f: sum(c in "NCMXH" for c in f))   # single fiber
         if script in seen:
             continue
         seen.add(script)
         cases.append({"args": ["f", 1, "S0", script], "env": {"ASAN_OPTIONS": "detect_leaks=0:abort_on_error=0"},
-                      "kind": "badfd", "timeout": 60})
+                      "kind": "badfd", "timeout": 10})
     return cases
 
 
